@@ -920,6 +920,18 @@ def validate_traces(chk, prop, rs, tracefile, limit):
                     chk.violation("recorded call labelled its slices with nodes %s for levels=%s" % (nxt["zidx"], cfgm["lv"]),
                                   {"kind": "trace", "call": rej}, klass=dict(rs.classify(cfgm), check="trace_labels"))
                     continue
+        if nxt is not None and nxt["e"] == "modes" and rej["matched_events"] >= 3:
+            # the Fourier summation index of every retained slot: a different ORDER of the same wavenumbers would be another
+            # representation (drift); a different SET means the sweep runs with wavenumbers the retained components do not
+            # have - every property of the solver is stated per retained component
+            g_ = py_geometry(dict(cfgm, halo=cfgm["halo"]))
+            want_x = sorted(int(k) for k in np.fft.fftfreq(g_["nlx"], 1.0 / g_["nlx"]))
+            want_y = sorted(int(k) for k in np.fft.fftfreq(g_["nly"], 1.0 / g_["nly"]))
+            if sorted(nxt.get("ilx", [])) != want_x or sorted(nxt.get("ily", [])) != want_y:
+                chk.violation("recorded call: the retained components carry the wavenumber indices %s x %s, the %d x %d retained modes are %s x %s"
+                              % (nxt.get("ilx"), nxt.get("ily"), g_["nlx"], g_["nly"], [int(k) for k in np.fft.fftfreq(g_["nlx"], 1.0 / g_["nlx"])], [int(k) for k in np.fft.fftfreq(g_["nly"], 1.0 / g_["nly"])]),
+                              {"kind": "trace", "call": rej}, klass=dict(rs.classify(cfgm), check="trace_modes"))
+                continue
         if nxt is not None and nxt["e"] == "mean_store" and prop == "C10":
             chk.violation("mean-mode loop stored node %s in slot %s for levels=%s" % (nxt["node"], nxt["slot"], cfgm["lv"]),
                           {"kind": "trace", "call": rej}, klass=dict(rs.classify(cfgm), check="trace_mean_store"))
